@@ -21,7 +21,7 @@ import (
 	"verif/mon"
 )
 
-var c08Scripts = []string{"expire", "renew-errors", "demote", "handoff-connected", "handoff-chain", "handoff-unknown", "handoff-disconnected", "handoff-fails-then-loss", "contend", "non-candidate", "cluster-id-mismatch", "cluster-id-adopt", "acquire-error", "primary-info-stale", "static"}
+var c08Scripts = []string{"expire", "renew-errors", "demote", "handoff-connected", "handoff-chain", "handoff-unknown", "handoff-disconnected", "handoff-fails-then-loss", "contend", "non-candidate", "cluster-id-mismatch", "cluster-id-adopt", "acquire-error", "primary-info-stale", "static", "renew-hangs"}
 
 func init() {
 	register(&core.Check{
@@ -110,6 +110,14 @@ func (o *c08Obs) probe(seq uint64, node, op string) {
 	if op == "acquire" || op == "acquire-existing" {
 		if svc, loc := o.cl.Svc.ClusterIDDirect(), n.Store.ClusterID(); svc != "" && loc != "" && svc != loc {
 			o.c.Violate("C08/acquire-for-foreign-cluster", fmt.Sprintf("seq %d: %s (cluster %s) called %s on a lease service of cluster %s", seq, node, loc, op, svc), o.tail())
+		}
+	}
+	if o.lossDelivered[node] && op == "renew" {
+		// a renewal was answered "lease gone": the node must stop being primary at
+		// once, not go on renewing
+		o.c.Count("renewals_after_loss_seen", 1)
+		if isPrimary {
+			o.c.Violate("C08/still-primary-after-loss", fmt.Sprintf("seq %d: %s renews again and still reports primary although an earlier renewal was answered that the lease is gone", seq, node), o.tail())
 		}
 	}
 	if o.lossDelivered[node] && op != "renew" && op != "handoff" {
@@ -233,7 +241,7 @@ func runC08(c *core.Case) {
 	switch script {
 	case "non-candidate":
 		opts = []cluster.NodeOpts{{Candidate: false}}
-	case "expire", "renew-errors", "demote", "acquire-error":
+	case "expire", "renew-errors", "demote", "acquire-error", "renew-hangs":
 		opts = opts[:1+variant%2]
 	}
 	cl, err := cluster.New(c.Dir, opts)
@@ -243,7 +251,7 @@ func runC08(c *core.Case) {
 	}
 	defer cl.Close()
 	ttl := []time.Duration{300 * time.Millisecond, 2500 * time.Millisecond, 600 * time.Millisecond}[variant%3]
-	if script != "renew-errors" && script != "expire" {
+	if script != "renew-errors" && script != "expire" && script != "renew-hangs" {
 		ttl = 300 * time.Millisecond
 	}
 	if script == "handoff-fails-then-loss" || (script == "handoff-disconnected" && variant%2 == 1) {
@@ -403,6 +411,29 @@ func runC08(c *core.Case) {
 		c.Count("lease_closed_after_loss", 1)
 		c08AfterLoss(c, o, n, w, "after renew errors")
 		setBlock("n0", "renew", nil)
+		setBlock("n0", "acquire", nil)
+	case "renew-hangs":
+		// The lease service accepts n0's renewals and never answers them (a
+		// black-holed connection). It hears nothing from n0 for more than a TTL, so
+		// the lease lapses there. A node is primary only while it holds a live
+		// lease: n0 has to give up on its own clock.
+		n, w, ok := startPrimary()
+		if !ok {
+			return
+		}
+		defer w.close()
+		setBlock("n0", "acquire", errors.New("scripted: acquire unavailable"))
+		cl.Svc.SetHang("n0", "renew")
+		defer cl.Svc.ClearHang("n0", "renew")
+		time.Sleep(ttl + ttl/2)
+		cl.Svc.Expire()
+		if !o.waitFor(2*ttl+6*time.Second, func() bool { return !n.Store.IsPrimary() }) {
+			c.Violate("C08/primary-survives-unanswered-renewal", fmt.Sprintf("n0's renewals have been left unanswered by the lease service for more than %s (TTL %s) and the lease has lapsed there; n0 still is primary", 3*ttl+6*time.Second, ttl), detail())
+			return
+		}
+		c.Count("loss_by_unanswered_renewal", 1)
+		c08AfterLoss(c, o, n, w, "after unanswered renewals")
+		cl.Svc.ClearHang("n0", "renew")
 		setBlock("n0", "acquire", nil)
 	case "demote":
 		n, w, ok := startPrimary()
